@@ -74,6 +74,26 @@ CHECKS['C11'] = dict(
          'contracts and is not re-proved here.',
     technique='sidecar contracts + symbolic execution of the real constructor chain + z3; exhaustive comparison of a closed dict')
 
+CHECKS['C01'] = dict(
+    category='proof',
+    text='The property statement is written as named invariant components over the public fields (contracts/engine.py: no stack or bet '
+         'negative; payoff = stack - starting stack at every point; chips in the pot never negative; once the pots are frozen stacks + '
+         'bets + pots + rake = starting stacks and the sub-pots still to be pushed are exactly what is left in the pots; when the hand is '
+         'over nothing is left on the table and the payoffs sum to minus the rake), together with the phase facts they depend on. Each of '
+         'the 45 functions of the operation cascade (16 public operations, 27 _begin/_update/_end steps, _begin, __post_init__) is '
+         'executed symbolically from an arbitrary pre-state satisfying its precondition components; callees of the cascade are replaced by '
+         'their contracts (precondition components are obligations at the call site, frame havocked, postcondition assumed), automation '
+         'loops are cut by the invariant; every component at every call site, loop and exit is one SMT obligation. State.pots and '
+         'State.total_pot_amount are proved to hold exactly the chips that left the stacks. A unit test samples hands; an obligation '
+         'covers every state of the shape, every chip amount, every automation subset.',
+    design_ref='DESIGN.md section 4 (C01), section 8',
+    note='D/shape: n in {2,3} quick, {2,3,4} thorough, at most R=2 run-outs; chips as mathematical integers; default divmod executed, rake '
+         'by its C19 contract (user-supplied helpers assumed to satisfy it); exceptions leaving a function part-way are C07 obligations; '
+         'one known finding (F6a, everybody mucks) is matched by obligation and witness; precondition components are evaluated natively '
+         'on random real hands on every run (guard).',
+    technique='sidecar contracts (invariant components) + own VC generator over the real AST with contract cuts and loop-invariant cuts + z3; '
+              'native replay of counter-models; native guard against vacuity')
+
 NOT_APPLICABLE = {
     'C20': 'regex-driven text importers against external site formats; no contract within reach expresses or decides it (DESIGN.md section 5)',
 }
